@@ -99,6 +99,10 @@ def corr_convolution(chk, r, n):
     t = cards.theory(PTO=0)
     interp = yadism.Runner(t, cards.obs({"F2_light": [dict(x=0.5, Q2=10.0)]}, interpolation_xgrid=grid, interpolation_polynomial_degree=3)).configs.interpolator
     eps = conv.eps_integration_border
+    # the code compares with the double 1 - eps: give the model the eps' with 1 - eps' == that double
+    F = fractions.Fraction
+    e_ = 1 - F(1.0 - eps)
+    eps_q = f"{e_.numerator}/{e_.denominator}"
     drv = Driver()
     pend = []
     for i in range(n):
@@ -117,7 +121,7 @@ def corr_convolution(chk, r, n):
             edges = [point] + brk + [1.0]
             for a, b in zip(edges[:-1], edges[1:]):
                 quad += scipy.integrate.quad(lambda z: (1.0 + z) * pj.evaluate_x(point / z) / z, a, b, epsabs=1e-13, epsrel=1e-12)[0]
-        idx = drv.add(f"convm {q(point)} {q(bs)} {q(has_reg)} 0 {q(has_loc)} {q(quad)} {q(pdf)} {q(locv)} 1/1 0")
+        idx = drv.add(f"convm {eps_q} {q(point)} {q(bs)} {q(has_reg)} 0 {q(has_loc)} {q(quad)} {q(pdf)} {q(locv)} 1/1 0")
         pend.append((idx, dict(point=point, basis=j, has_reg=has_reg, has_loc=has_loc, loc=locv), real, point))
     lines = drv.run()
     for idx, case, real, point in pend:
